@@ -11,7 +11,9 @@ import (
 	stakingtypes "github.com/cosmos/cosmos-sdk/x/staking/types"
 	"github.com/cosmos/gogoproto/proto"
 
+	avstypes "github.com/ExocoreNetwork/exocore/x/avs/types"
 	dogfoodtypes "github.com/ExocoreNetwork/exocore/x/dogfood/types"
+	oracletypes "github.com/ExocoreNetwork/exocore/x/oracle/types"
 	operatortypes "github.com/ExocoreNetwork/exocore/x/operator/types"
 )
 
@@ -230,3 +232,60 @@ func (s *DogState) TotalPower() int64 {
 }
 
 func fmtErr(f string, a ...interface{}) string { return fmt.Sprintf(f, a...) }
+
+// ParseAVS returns the registered AVSs keyed by the address string stored in the info.
+func ParseAVS(raw Raw) map[string]avstypes.AVSInfo {
+	out := map[string]avstypes.AVSInfo{}
+	for k, v := range raw["avs"] {
+		if len(k) == 0 || k[0] != avstypes.KeyPrefixAVSInfo[0] {
+			continue
+		}
+		var x avstypes.AVSInfo
+		if proto.Unmarshal(v, &x) == nil {
+			out[x.AvsAddress] = x
+		}
+	}
+	return out
+}
+
+// LatestPrices reads, from raw oracle store bytes, the latest stored round per token id.
+func LatestPrices(raw Raw) map[uint64]oracletypes.PriceTimeRound {
+	out := map[uint64]oracletypes.PriceTimeRound{}
+	next := map[uint64]uint64{}
+	rounds := map[uint64]map[uint64]oracletypes.PriceTimeRound{}
+	pfx := oracletypes.PricesKeyPrefix
+	for k, v := range raw["oracle"] {
+		if !strings.HasPrefix(k, pfx) {
+			continue
+		}
+		rest := k[len(pfx):]
+		if len(rest) < 9 {
+			continue
+		}
+		tid := sdk.BigEndianToUint64([]byte(rest[:8]))
+		sub := rest[9:]
+		if sub == string(oracletypes.PricesNextRoundIDKey) {
+			next[tid] = sdk.BigEndianToUint64(v)
+			continue
+		}
+		if len(sub) == 9 {
+			rid := sdk.BigEndianToUint64([]byte(sub[:8]))
+			var p oracletypes.PriceTimeRound
+			if proto.Unmarshal(v, &p) == nil {
+				if rounds[tid] == nil {
+					rounds[tid] = map[uint64]oracletypes.PriceTimeRound{}
+				}
+				rounds[tid][rid] = p
+			}
+		}
+	}
+	for tid, n := range next {
+		if n <= 1 {
+			continue
+		}
+		if p, ok := rounds[tid][n-1]; ok {
+			out[tid] = p
+		}
+	}
+	return out
+}
